@@ -1698,6 +1698,13 @@ class Exec:
             key = self.loop_key(var)
             n['_key'] = key
         spec = (self.loops or {}).get(key)
+        if self.bounded and (spec is None or not spec.unroll):
+            # bounded re-check (fallback after an invariant failed): ignore the invariant, unroll K times,
+            # and only follow executions that leave the loop within K iterations
+            spec = LoopSpec(unroll=self.bounded)
+            spec.assume_exit = True
+            if key in (self.loops or {}) and self.loops[key].exit_effect:
+                spec.exit_effect = self.loops[key].exit_effect
         if spec is None:
             raise ExtractionError(f'{self.unit}: loop {key} (line {self.curline}) has no invariant/unroll in the spec')
         tags = spec.tags if spec.tags is not None else self.default_tags
@@ -1713,7 +1720,8 @@ class Exec:
                     cur = None
                     break
                 if it == spec.unroll:
-                    self.oblig(cur, f'unwind.{key}', z3.Not(c), 'unwind', tags, f'loop {key} runs at most {spec.unroll} times')
+                    if not getattr(spec, 'assume_exit', False):
+                        self.oblig(cur, f'unwind.{key}', z3.Not(c), 'unwind', tags, f'loop {key} runs at most {spec.unroll} times')
                     e = cur.copy(); e.assume(z3.Not(c))
                     exits.append((z3.BoolVal(True), e))
                     cur = None
@@ -1741,6 +1749,8 @@ class Exec:
                     # s2 holds under its pc; use last pc element as discriminator
                     disc = s2.pc[-1] if s2.pc else z3.BoolVal(True)
                     final = merge_states(disc, s2, final)
+            if final is not None and spec.exit_effect:
+                spec.exit_effect(Ctx(self, final, self.entry, self.args0))
             outs = [(final, None)] if final is not None else []
             return outs + rets
         # ---- invariant-based
@@ -1848,6 +1858,7 @@ class Exec:
 
     loops = None
     args0 = None
+    bounded = 0
 
     def st_CXXTryStmt(self, n, st):
         return models.try_stmt(self, n, st)
